@@ -39,6 +39,9 @@ class CZ(decio.Concretiser):
 
     def __init__(self, rng, base=None, conj_matters=False, vocab=None):
         super().__init__(rng, base=base, conj_matters=conj_matters, vocab=vocab)
+        # a Pythia / JetSet value spelled inf or nan is read as a float by the library; whether that is "a number as a
+        # number" or "a word as a word" the property does not say: such spellings are kept out of these values
+        self.no_floatlike_words = True
         self.ints = {}
         self.uints = {}
         global _REAL
